@@ -37,7 +37,8 @@ def scratch_copy():
     return d
 
 
-def run_witness(path, verbose=False):
+def run_witness(path, verbose=False, pid=None):
+    """pid: for a behaviour-preserving witness that lists several properties, the one to check (default: all listed, worst result)."""
     exp = None
     silent = None
     for line in open(path):
@@ -45,9 +46,17 @@ def run_witness(path, verbose=False):
         if m:
             exp = (m.group(1), m.group(2), m.group(3).strip())
             break
-        m = re.match(r"#\s*expect-silent:\s*(\S+)", line)
+        m = re.match(r"#\s*expect-silent:\s*(.+)$", line)
         if m:
-            silent = m.group(1)
+            pids = m.group(1).split()
+            if pid is None and len(pids) > 1:
+                worst = ("silent", "(behaviour-preserving edit: no alarm on %s)" % " ".join(pids))
+                for p_ in pids:
+                    st, why = run_witness(path, verbose, p_)
+                    if st != "silent":
+                        worst = (st, "%s: %s" % (p_, why))
+                return worst
+            silent = pid if pid in pids else pids[0]
             exp = (silent, "-", "-")
             break
     if not exp:
@@ -92,11 +101,11 @@ def main():
     res = []
     for f in files:
         head = open(f).read(400)
-        if a.property and ("expect: %s " % a.property) not in head and ("expect-silent: %s" % a.property) not in head:
+        if a.property and ("expect: %s " % a.property) not in head and not re.search(r"expect-silent:[^\n]*\b%s\b" % a.property, head):
             continue
         if a.rule and (" %s " % a.rule) not in head:
             continue
-        st, why = run_witness(f, a.v)
+        st, why = run_witness(f, a.v, a.property if re.search(r"expect-silent:", head) else None)
         res.append((f, st, why))
         print("%-8s %s %s" % (st, os.path.relpath(f, HERE), why))
         if st in ("missed", "bad"):
